@@ -88,6 +88,68 @@ def run(ctx, res):
         if dec_opt(g) != exp:
             res.disagreements.append({'what': 'inference guard model differs from the property reading on %r' % (gc,), 'replay': list(gc)})
 
+    # end to end: a SQLite table whose catalogue answer is supplied by the harness (SQLite's own probe always answers `text`): only
+    # reference-valued object maps that are plain literals (no language tag, no datatype, not an IRI / blank node) over the table get the
+    # natural-mapping datatype of their column, every other object map of the same column is left as written, and nothing is inferred
+    # when the option is off
+    import os, shutil
+    from .. import common, mapcase
+    EXN, XSD = mapcase.EX, mapcase.XSD
+    def tmq(k, v, ck='iri', tt=''):
+        return {'k': k, 'v': v, 'ck': ck, 'tt': tt}
+    type_pool = ['INTEGER', 'BIGINT', 'DOUBLE', 'DOUBLE PRECISION', 'BOOLEAN', 'DATE', 'VARCHAR(10)', 'TEXT', 'DECIMAL(10,2)', 'TIMESTAMP', 'REAL']
+    lk = {t: dec_opt(m) for t, m in zip(type_pool, model.run_many([['c20.lookup', t] for t in type_pool]))}
+    wd = common.workdir()
+    for rep in range(ctx.scale(10, 80)):
+        tv, tw = ctx.rng.choice(type_pool), ctx.rng.choice(type_pool)
+        val = {'INTEGER': '5', 'BIGINT': '12', 'DOUBLE': '1.5', 'DOUBLE PRECISION': '2.5', 'BOOLEAN': 'true', 'DATE': '2020-01-02', 'VARCHAR(10)': 'abc', 'TEXT': 'x y',
+               'DECIMAL(10,2)': '3.25', 'TIMESTAMP': '2020-01-02T03:04:05', 'REAL': '0.5'}
+        rows = [['1', val[tv], val[tw]], ['2', val[tv], val[tw]]]
+        shapes = [('plain', {'m': tmq('ref', 'v'), 'lang': None, 'dt': None, 'joins': []}),
+                  ('dt', {'m': tmq('ref', 'v'), 'lang': None, 'dt': tmq('const', EXN + 'dt/own'), 'joins': []}),
+                  ('lang', {'m': tmq('ref', 'v'), 'lang': tmq('const', 'en', 'lit'), 'dt': None, 'joins': []}),
+                  ('iri', {'m': tmq('ref', 'v', 'iri', 'iri'), 'lang': None, 'dt': None, 'joins': []}),
+                  ('plain-w', {'m': tmq('ref', 'w'), 'lang': None, 'dt': None, 'joins': []}),
+                  ('templ', {'m': tmq('templ', '{v}', 'iri', 'lit'), 'lang': None, 'dt': None, 'joins': []})]
+        ctx.rng.shuffle(shapes)
+        shapes = shapes[:ctx.rng.choice([3, 4, 6])]
+        poms = [{'preds': [tmq('const', EXN + 'p/' + name)], 'objs': [o], 'graphs': []} for name, o in shapes]
+        on = ctx.rng.random() < 0.75
+        case = {'cfg': {'nquads': False, 'mode': ctx.rng.choice(['NO', 'PARTIAL-AGGREGATIONS'])},
+                'sources': [{'key': 'S0', 'kind': 'sqltable', 'cols': ['id', 'v', 'w'], 'rows': rows, 'types': ['TEXT', 'TEXT', 'TEXT']}],
+                'doc': [{'id': EXN + 'tm/T', 'src': 'S0', 'nonasserted': False, 'subj': tmq('templ', EXN + 'r/{id}'), 'sjoins': [], 'classes': [], 'sgraphs': [], 'poms': poms}]}
+        d = os.path.join(wd, 'inf%d' % rep); os.makedirs(d)
+        cfg = mapcase.materialise_files(case, d).replace('[CONFIGURATION]\n', '[CONFIGURATION]\ninfer_sql_datatypes=%s\n' % ('yes' if on else 'no'))
+        table = case['sources'][0]['table']
+        r = ctx.pool.call('mat_set', config=cfg, cwd=d, catalogue={table + '\x00v': tv, table + '\x00w': tw})
+        shutil.rmtree(d, ignore_errors=True)
+        res.evaluations += 1
+        res.count('infer-e2e:' + ('on' if on else 'off'))
+        if not r.get('ok') or 'lines' not in (r.get('result') or {}):
+            res.disagreements.append({'what': 'inference end to end: run failed %s' % str(r)[:300], 'replay': None}); continue
+        got = sorted(r['result']['lines'])
+        exp = []
+        for i in ('1', '2'):
+            for name, o in shapes:
+                col = 'w' if o['m']['v'] == 'w' else 'v'
+                v_ = val[tw] if col == 'w' else val[tv]
+                if name in ('plain', 'plain-w'):
+                    dt = lk[tw if col == 'w' else tv] if on else None
+                    obj = '"%s"' % v_ + ('^^<%s>' % dt if dt else '')
+                elif name == 'dt':
+                    obj = '"%s"^^<%sdt/own>' % (v_, EXN)
+                elif name == 'lang':
+                    obj = '"%s"@en' % v_
+                elif name == 'iri':
+                    obj = '<%s>' % v_
+                else:
+                    obj = '"%s"' % v_
+                exp.append('<%sr/%s> <%sp/%s> %s' % (EXN, i, EXN, name, obj))
+        exp = sorted(set(exp))
+        if got != exp:
+            res.violations.append({'key': None, 'sig': 'infer-e2e', 'what': 'datatype inference end to end (infer_sql_datatypes=%s, column types v=%s w=%s): only implementation %r, only expected %r'
+                                   % (on, tv, tw, [x for x in got if x not in exp][:4], [x for x in exp if x not in got][:4]), 'replay': {'case': case, 'types': [tv, tw], 'on': on}})
+
 
 def replay(ctx, res, payload):
     case = payload.get('case') or {}
